@@ -50,11 +50,20 @@ StreamOk(ev) ==
 LongOk(ev) == ev.out = HashLong(ev.msg, ev.outlen)
 CommitOk(ev) == ev.out = Written(Commitment(ev.input, ev.hash), Len(ev.out))
 
+\* a message of lenHigh * 2^32 + lenLow zero bytes (not recomputable here: 2^25 compressions): the one-shot function and the streamed
+\* session are the same function of the message (BlakeStream: one-shot = session with one chunk), and neither is the digest of the
+\* first lenLow bytes, which is what a length truncated to 32 bits would give; lenLow zero bytes ARE recomputed
+BigOk(ev) == /\ ev.rc1 = 0 /\ ev.rc2 = 0 /\ ev.lenHigh >= 1
+             /\ ev.oneshot = ev.streamed
+             /\ ev.truncated = Hash([i \in 1..ev.lenLow |-> 0], 32, <<>>)
+             /\ ev.oneshot # ev.truncated
+
 EventOk(ev) ==
   CASE ev.e = "oneshot" -> OneShotOk(ev)
     [] ev.e = "stream"  -> StreamOk(ev)
     [] ev.e = "long"    -> LongOk(ev)
     [] ev.e = "commit"  -> CommitOk(ev)
+    [] ev.e = "big"     -> BigOk(ev)
     [] OTHER -> FALSE
 
 Init == l = 1
